@@ -408,7 +408,8 @@ func c13Client(c *ev.Ctx) {
 			}
 			f.Readdir(0, 1<<31)
 			f.Readdir(0, 1<<32-1)
-			f.GetXattr("user.big")
+			f.GetXattr("user.big") // the fake server announces 3*msize+7 bytes
+			f.ListXattrs()         // and a name list of the same length
 			f.Close()
 		}()
 		if out, dump := quiesce.Await(done, 2*wd); out != quiesce.CondMet {
